@@ -92,13 +92,13 @@ fn enc_probe(ev: &mut Ev, enc: &'static Encoding, pre: &[u32], rest: &[u32], whi
     let desc = || format!("enc={} text-already-encoded=[{}] then remaining text=[{}] last={} pairing={}", enc.name(), hex32(pre), hex32(rest), last, EQNAMES[which]);
     ev.count("maxlen.encoder-probes");
     match r {
-        Err(e) => ev.violation("maxlen", &format!("enc:{}:panic", enc.output_encoding().name()), format!("panic during query+call: {} | {}", panic_message(&e), desc())),
+        Err(e) => ev.violation("maxlen", &format!("enc:{}:panic", crate::c01::ofam(enc)), format!("panic during query+call: {} | {}", panic_message(&e), desc())),
         Ok((full, calls, pend, log)) => {
             ev.api_calls += calls * 2;
             if tr { println!("TRACE {} pending_state={} {}", desc(), pend, log); }
-            ev.state(H::new().s(enc.output_encoding().name()).u(pend as u64).u(which as u64).u(7).get(), || format!("enc {} has_pending_state-at-query={} {}", enc.output_encoding().name(), pend, which));
+            ev.state(H::new().s(crate::c01::ofam(enc)).u(pend as u64).u(which as u64).u(7).get(), || format!("enc {} has_pending_state-at-query={} {}", crate::c01::ofam(enc), pend, which));
             if !rest.is_empty() { if enumerated { ev.nontrivial_enum(); } else { ev.nontrivial_hash(H::new().s(enc.name()).u32s(pre).u32s(rest).u(which as u64).u(last as u64).get()); } }
-            if let Some((k, q)) = full { ev.violation("maxlen", &format!("enc:{}:{}:OutputFull", enc.output_encoding().name(), which), format!("query for {} input units returned {} but the call with a {}-byte destination reported OutputFull | {} | {}", k, q, q, desc(), log)); }
+            if let Some((k, q)) = full { ev.violation("maxlen", &format!("enc:{}:{}:OutputFull", crate::c01::ofam(enc), which), format!("query for {} input units returned {} but the call with a {}-byte destination reported OutputFull | {} | {}", k, q, q, desc(), log)); }
         }
     }
 }
@@ -142,8 +142,8 @@ fn overflow(ev: &mut Ev, ctx: &Ctx) {
             bad
         }));
         ev.count_n("maxlen.overflow-queries", 12 * bigs.len() as u64);
-        match res { Err(e) => ev.violation("maxlen-overflow", &format!("enc:{}:panic", enc.output_encoding().name()), format!("query panicked: {} | enc={}", panic_message(&e), enc.name())),
-            Ok(bad) => for b in bad { ev.violation("maxlen-overflow", &format!("enc:{}:wrapped", enc.output_encoding().name()), format!("{} | enc={}", b, enc.name())); } }
+        match res { Err(e) => ev.violation("maxlen-overflow", &format!("enc:{}:panic", crate::c01::ofam(enc)), format!("query panicked: {} | enc={}", panic_message(&e), enc.name())),
+            Ok(bad) => for b in bad { ev.violation("maxlen-overflow", &format!("enc:{}:wrapped", crate::c01::ofam(enc)), format!("{} | enc={}", b, enc.name())); } }
     }
 }
 
